@@ -440,6 +440,15 @@ var readers = []reader{
 
 var sdf = []byte("\x02\x00\x0d@setDataFrame")
 
+// otherMetas: metadata of other streams (small and ordinary, without and with the prefix) converted after a
+// result has been handed out.
+var otherMetas = func() [][]byte {
+	small := append([]byte("\x02\x00\x0aonMetaData\x03"), []byte("\x00\x01z\x00\x40\x59\x00\x00\x00\x00\x00\x00\x00\x00\x09")...)
+	big := append([]byte("\x02\x00\x0aonMetaData\x03"), bytes.Repeat([]byte("\x00\x02yy\x02\x00\x04qqqq"), 12)...)
+	big = append(big, 0, 0, 9)
+	return [][]byte{small, big, append(append([]byte{}, sdf...), small...)}
+}()
+
 func checkBytes(r *vk.Run, b []byte, origin string) {
 	in := append([]byte{}, b...)
 	for _, rd := range readers {
@@ -473,6 +482,18 @@ func checkBytes(r *vk.Run, b []byte, origin string) {
 			}
 			if !bytes.Equal(out, want) {
 				r.Violation("sdf/with", fmt.Sprintf("MetadataEnsureWithSdf(%x) = %x, want %x (err=%v)", b, out, want, err), rp)
+			}
+			// the result is kept by the caller (a group caches it for later joiners): converting another
+			// stream's metadata must not change it
+			if err == nil && len(out) > 0 {
+				held := append([]byte{}, out...)
+				for _, other := range otherMetas {
+					rtmp.MetadataEnsureWithSdf(other)
+					rtmp.MetadataEnsureWithoutSdf(other)
+				}
+				if !bytes.Equal(out, held) {
+					r.Violation("sdf/held-result-changed", fmt.Sprintf("the result of MetadataEnsureWithSdf(%x) changed when other metadata was converted afterwards: %x, was %x", b, out, held), rp)
+				}
 			}
 			if err == nil {
 				back, e2 := rtmp.MetadataEnsureWithoutSdf(out)
